@@ -50,7 +50,11 @@ impl Object for Encoding {
                             }
                             Primitive::Name(name) => {
                                 differences.insert(gid, name);
-                                gid += 1;
+                                // the code is a number from the file (-1 is read as u32::MAX)
+                                gid = match gid.checked_add(1) {
+                                    Some(next) => next,
+                                    None => bail!("character code in Differences array out of range")
+                                };
                             }
                             _ => bail!("Unknown part primitive in dictionary: {:?}", part),
                         }
